@@ -32,6 +32,9 @@ HITS = []
 EVENTS = []
 STATE = {'active': False, 'installed': False, 'allowed_names': None, 'allowed_modules': None}
 CANARY_DIR = os.path.join(VERIF_DIR, '.work', 'canary')
+import tempfile
+TMPDIR = tempfile.gettempdir()
+WRITE_FLAGS = os.O_WRONLY | os.O_RDWR | os.O_CREAT | os.O_APPEND | os.O_TRUNC
 
 
 class Canary(object):
@@ -103,7 +106,10 @@ def _audit(event, args):
         elif event == 'import':
             EVENTS.append(('import', str(args[0])))
         elif event == 'open':
-            EVENTS.append(('open', str(args[0])))
+            mode = args[1] if len(args) > 1 else None
+            flags = args[2] if len(args) > 2 else 0
+            writing = (isinstance(mode, str) and any(c in mode for c in 'wax+')) or (isinstance(flags, int) and flags & WRITE_FLAGS)
+            EVENTS.append(('open', str(args[0]), bool(writing)))
         elif event in ('os.system', 'subprocess.Popen', 'os.exec', 'os.posix_spawn', 'os.fork', 'os.spawn', 'pty.spawn') \
                 or event.startswith('socket.') or event.startswith('os.exec') or event.startswith('ctypes.'):
             EVENTS.append(('danger', event, repr(args)[:200]))
@@ -173,6 +179,9 @@ def snapshot():
         'modules': frozenset(sys.modules),
         'environ': dict(os.environ),
         'cwd': os.getcwd(),
+        'recursionlimit': sys.getrecursionlimit(),
+        'switchinterval': sys.getswitchinterval(),
+        'pint-mode': getattr(sys.modules.get('hszinc.datatypes'), 'MODE_PINT', None),
         'canary_files': tuple(sorted(os.listdir(CANARY_DIR))),
     }
 
@@ -201,6 +210,13 @@ def check(case):
             g.filter(text)
         except (pyparsing.ParseBaseException, ValueError):
             outcome = 'rejected'
+        except RecursionError as e:
+            # nesting deeper than the interpreter's recursion limit is outside the domain; what still must hold is that
+            # nothing - in particular no interpreter-wide setting - is changed by the attempt
+            if text.count('(') >= 100:
+                outcome = 'rejected'
+            else:
+                exc = e
         except BaseException as e:  # noqa
             exc = e
     finally:
@@ -220,17 +236,17 @@ def check(case):
                 raise Violation('payload-compiled-as-code', case, 'compiled source contains the identifiers %r taken from the filter text' % bad, tags)
         elif ev[0] == 'import' and 'zzcanary' in ev[1]:
             raise Violation('import', case, 'import of %r' % ev[1], tags)
-        elif ev[0] == 'open' and 'canary' in ev[1]:
-            raise Violation('file-opened', case, 'open(%r)' % ev[1], tags)
+        elif ev[0] == 'open' and ('canary' in ev[1] or ev[2]):
+            raise Violation('file-opened', case, 'open(%r%s)' % (ev[1], ' for writing' if ev[2] else ''), tags)
         elif ev[0] == 'danger':
             raise Violation('process-or-network', case, '%s %s' % (ev[1], ev[2]), tags)
     if exc is not None:
         raise Violation('non-parse-error', case, 'filter raised %s (only a parse error or ValueError is acceptable)' % describe_exc(exc),
                         tags + (type(exc).__name__,))
     after = snapshot()
-    for k in ('gf', 'builtins', 'environ', 'cwd', 'canary_files'):
+    for k in ('gf', 'builtins', 'environ', 'cwd', 'canary_files', 'recursionlimit', 'switchinterval', 'pint-mode'):
         if snap[k] != after[k]:
-            diff = (set(after[k]) ^ set(snap[k])) if not isinstance(snap[k], (dict, str)) else (snap[k], after[k])
+            diff = (set(after[k]) ^ set(snap[k])) if isinstance(snap[k], (frozenset, tuple)) else (snap[k], after[k])
             raise Violation('global-state-changed', case, '%s changed: %r' % (k, list(diff)[:5] if isinstance(diff, set) else diff), tags)
     newmods = after['modules'] - snap['modules'] - STATE['allowed_modules']
     if newmods:
@@ -259,7 +275,12 @@ def payloads():
             '__import__("os").system("touch %s/%d")' % (CANARY_DIR, n), '%s)(' % c, '%s"("' % c, 'x)==%s("a")or(x' % c,
         ]
         if n == 0:
-            out += ['print("zz")', 'len("abc")', 'repr', 'id', 'type', 'str', 'NOT_FOUND', '_get_path', 'Ref("a")', 'XStr("a","b")',
+            out += ['clear', 'popitem', 'pop', 'update', 'copy', 'keys', 'items', 'values', 'setdefault', 'fromkeys', 'get',
+                    '__class__', '__dict__', '__init__', 'use_pint("1")', 'use_pint', 'to_pint("m")', 'ureg', 'long("1")',
+                    'Quantity("1")', 'Grid("3.0")', 'parse_filter("x")', 'filter_function("x")', 'lru_cache', 'itertools',
+                    ' and '.join('t%d == %d' % (i, i) for i in range(60)), ' or '.join('not t%d' % i for i in range(120)),
+                    '(' * 30 + 'x' + ')' * 30, '(' * 140 + 'x' + ')' * 140, '(' * 400 + 'x == 1' + ')' * 400, '"' + 'A' * 5000 + '"',
+                    'print("zz")', 'len("abc")', 'repr', 'id', 'type', 'str', 'NOT_FOUND', '_get_path', 'Ref("a")', 'XStr("a","b")',
                     'MARKER', 'os', 'sys', 'datetime.date(2020,1,1)', 'timezone("UTC")', 'NA', 'float("nan")', 'True', 'None']
     seen, res = set(), []
     for p in out:
